@@ -74,6 +74,13 @@ pub fn run(v: &Value) -> Value {
             res["out2"] = json!(r2.output);
             res["flags2"] = r2.flags;
         }
+        if v["nodes_out"].as_bool().unwrap_or(false) {
+            let cfg3 = fmt::config_of(&v["config"]).unwrap();
+            res["out_nodes"] = match rustfmt_nightly::verif_hooks::ast_nodes(&out, &cfg3) {
+                Some(ns) => json!(ns.into_iter().map(|(k, lo, hi, p)| json!([k, lo, hi, p])).collect::<Vec<_>>()),
+                None => Value::Null,
+            };
+        }
         if v["lex"].as_bool().unwrap_or(false) {
             res["in_tokens"] = toks(lex(text));
             res["out_tokens"] = toks(lex(&out));
